@@ -75,6 +75,9 @@ Proof.
   destruct (IH Hin) as (a & Ha & HR). exists a. split; [now right|assumption].
 Qed.
 
+Lemma Forall2_len {A B} (R : A -> B -> Prop) l l' : Forall2 R l l' -> length l = length l'.
+Proof. induction 1; cbn [length]; congruence. Qed.
+
 Lemma port_lines_cons q l : port_lines (q :: l) = (dec_of_N q ++ [LF]) ++ port_lines l.
 Proof. reflexivity. Qed.
 
@@ -159,4 +162,485 @@ Proof.
   rewrite IH by (intros l Hl; apply Ht; now right). reflexivity.
 Qed.
 
+
+(* ---- Proxy.setup, step by step ---- *)
+Definition raw_after (c : config) (port' : N) (raw : list N) : list N :=
+  match unix_socket_path c with
+  | None => if mem N.eqb port' raw then filter (fun q => negb (q =? port')) raw else raw
+  | Some _ => raw
+  end.
+
+Lemma raw_after_In c port' raw q :
+  In q (raw_after c port' raw) <-> In q raw /\ (unix_socket_path c = None -> q <> port').
+Proof.
+  unfold raw_after. destruct (unix_socket_path c) as [u|].
+  - split; [intros H; split; [assumption|discriminate]|tauto].
+  - destruct (mem N.eqb port' raw) eqn:Em.
+    + rewrite filter_In, negb_true_iff, N.eqb_neq. tauto.
+    + split; [|tauto]. intros H. split; [assumption|]. intros _ ->.
+      apply (mem_In N.eqb N.eqb_eq) in H. congruence.
+Qed.
+
+Lemma proxy_setup_steps c w p w' : proxy_setup os c w = Ok (p, w') ->
+  exists w1 pool w2 port' raw w3,
+    write_pid_file os c w = Ok w1 /\
+    pool_setup os c w1 = Ok (pool, w2) /\
+    match unix_socket_path c with None => nth_port pool 0 | Some _ => Ok (port c) end = Ok port' /\
+    read_ports pool (seq 1 (length (ports c))) = Ok raw /\
+    let c' := with_ports c port' (set_ports os (raw_after c port' raw)) in
+    write_port_file c' w2 = Ok w3 /\
+    let ex := if remote_executors_enabled c then map ExecutorProc (seq 0 (num_workers c)) else [] in
+    let ac := map AcceptorProc (seq 0 (num_acceptors c)) in
+    p = {| flags := c'; listeners := pool; acceptors := ac; executors := ex |} /\
+    w' = spawn ac (spawn ex w3).
+Proof.
+  unfold proxy_setup. intros H.
+  destruct (write_pid_file os c w) as [w1|e] eqn:E1; cbn [bind] in H; [|discriminate].
+  destruct (pool_setup os c w1) as [[pool w2]|e] eqn:E2; cbn [bind] in H; [|discriminate].
+  destruct (match unix_socket_path c with None => nth_port pool 0 | Some _ => Ok (port c) end)
+    as [port'|e] eqn:E3; cbn [bind] in H; [|discriminate].
+  destruct (read_ports pool (seq 1 (length (ports c)))) as [raw|e] eqn:E4; cbn [bind] in H; [|discriminate].
+  fold (raw_after c port' raw) in H.
+  destruct (write_port_file (with_ports c port' (set_ports os (raw_after c port' raw))) w2)
+    as [w3|e] eqn:E5; cbn [bind] in H; [|discriminate].
+  inversion H; subst; clear H.
+  exists w1, pool, w2, port', raw, w3. repeat split; assumption.
+Qed.
+
+Lemma hosts_nonempty c : exists h0 hs, set_hosts os (hostname c :: hostnames c) = h0 :: hs.
+Proof.
+  destruct (Hhosts (hostname c :: hostnames c)) as [_ Hin].
+  destruct (set_hosts os (hostname c :: hostnames c)) as [|h0 hs]; [|eauto].
+  exfalso. apply (Hin (hostname c)). now left.
+Qed.
+
+(* the pool starts with the unix listener or the primary listener, followed by the listeners of
+   flags.ports on the first address, followed by those of the remaining addresses *)
+Lemma pool_shape c w pool w' : pool_setup os c w = Ok (pool, w') ->
+  exists h0 hs x lsA lsB,
+    set_hosts os (hostname c :: hostnames c) = h0 :: hs /\
+    pool = x :: lsA ++ lsB /\
+    Forall2 bound_as (map (pair h0) (ports c)) lsA /\
+    Forall2 bound_as (product hs (tcp_ports c)) lsB /\
+    match unix_socket_path c with
+    | Some u => x = UnixL u
+    | None => bound_as (h0, port c) x
+    end.
+Proof.
+  intros H. apply pool_setup_inv in H as (ls & F & _ & _ & Hm).
+  destruct (hosts_nonempty c) as (h0 & hs & Eh). rewrite Eh in F.
+  unfold product in F. cbn [list_prod] in F.
+  apply Forall2_app_inv_l in F as (l1 & l2 & F1 & F2 & ->).
+  exists h0, hs. unfold tcp_ports in *.
+  destruct (unix_socket_path c) as [u|].
+  - destruct Hm as (-> & _). exists (UnixL u), l1, l2. repeat split; assumption.
+  - destruct Hm as (-> & _). cbn [map] in F1. inversion F1 as [|a x l lsA Hx FA]; subst.
+    exists x, lsA, l2. repeat split; assumption.
+Qed.
+
+Lemma setup_shape c w p w' : proxy_setup os c w = Ok (p, w') ->
+  exists h0 hs x lsA lsB,
+    set_hosts os (hostname c :: hostnames c) = h0 :: hs /\
+    listeners p = x :: lsA ++ lsB /\
+    Forall2 bound_as (map (pair h0) (ports c)) lsA /\
+    Forall2 bound_as (product hs (tcp_ports c)) lsB /\
+    match unix_socket_path c with
+    | Some u => x = UnixL u /\ port (flags p) = port c
+    | None => bound_as (h0, port c) x /\ port (flags p) = l_port x
+    end /\
+    ports (flags p) = set_ports os (raw_after c (port (flags p)) (map l_port lsA)) /\
+    flags p = with_ports c (port (flags p)) (ports (flags p)).
+Proof.
+  intros H. apply proxy_setup_steps in H
+    as (w1 & pool & w2 & port' & raw & w3 & _ & Hpool & Hport & Hraw & _ & -> & _).
+  apply pool_shape in Hpool as (h0 & hs & x & lsA & lsB & Eh & -> & FA & FB & Hx).
+  assert (Hlen : length lsA = length (ports c)).
+  { apply Forall2_len in FA. rewrite map_length in FA. symmetry. exact FA. }
+  assert (HtA : forall l, In l lsA -> is_tcp l = true).
+  { intros l Hl. destruct (Forall2_In_r _ _ _ _ FA Hl) as (a & _ & Ha). exact (bound_as_tcp _ _ Ha). }
+  rewrite <- Hlen in Hraw.
+  change (x :: lsA ++ lsB) with ([x] ++ lsA ++ lsB) in Hraw.
+  change 1%nat with (length [x]) in Hraw.
+  rewrite (read_ports_block lsA [x] lsB HtA) in Hraw. inversion Hraw; subst raw; clear Hraw.
+  exists h0, hs, x, lsA, lsB. cbn [flags listeners with_ports port ports].
+  repeat split; try assumption; try reflexivity.
+  destruct (unix_socket_path c) as [u|].
+  - split; [assumption|]. now inversion Hport.
+  - split; [assumption|]. pose proof (bound_as_tcp _ _ Hx) as Ht.
+    pose proof (nth_port_mid [] x (lsA ++ lsB) Ht) as Hn. cbn [app length] in Hn.
+    rewrite Hn in Hport. now inversion Hport.
+Qed.
+
+(* ---- files, sockets and children after start-up ---- *)
+Lemma write_file_inv f k w w' : write_file f k w = Ok w' ->
+  fs w' = fs_set f (Regular k) (fs w) /\ listening w' = listening w /\ children w' = children w /\
+  fs w f <> Some SocketFile.
+Proof.
+  unfold write_file. intros H.
+  destruct (fs w f) as [[c0|]|] eqn:E; inversion H; subst; cbn [set_fs fs listening children];
+    repeat split; congruence.
+Qed.
+
+Lemma setup_world c w p w' : proxy_setup os c w = Ok (p, w') ->
+  listening w' = listening w ++ listeners p /\
+  children w' = children w ++ executors p ++ acceptors p /\
+  acceptors p = map AcceptorProc (seq 0 (num_acceptors c)) /\
+  executors p = (if remote_executors_enabled c then map ExecutorProc (seq 0 (num_workers c)) else []) /\
+  (forall f, port_file c = Some f -> fs w' f = Some (Regular (port_lines (reported (flags p))))) /\
+  (forall u, unix_socket_path c = Some u ->
+     fs w' u = Some SocketFile /\ fs w u = None /\ pid_file c <> Some u /\ port_file c <> Some u) /\
+  (forall f, pid_file c = Some f -> port_file c <> Some f ->
+     fs w' f = Some (Regular (dec_of_N (getpid os)))) /\
+  (forall f, pid_file c <> Some f -> port_file c <> Some f -> unix_socket_path c <> Some f ->
+     fs w' f = fs w f).
+Proof.
+  intros H. apply proxy_setup_steps in H
+    as (w1 & pool & w2 & port' & raw & w3 & Hpid & Hpool & _ & _ & Hpf & -> & ->).
+  apply pool_setup_inv in Hpool as (ls & _ & Hch2 & Hli2 & Hm).
+  set (c' := with_ports c port' (set_ports os (raw_after c port' raw))) in *.
+  (* pid file *)
+  assert (P1 : listening w1 = listening w /\ children w1 = children w /\
+               match pid_file c with
+               | Some f => fs w1 = fs_set f (Regular (dec_of_N (getpid os))) (fs w)
+               | None => fs w1 = fs w end).
+  { unfold write_pid_file in Hpid. destruct (pid_file c) as [f|].
+    - apply write_file_inv in Hpid as (? & ? & ? & _). auto.
+    - inversion Hpid; subst. auto. }
+  destruct P1 as (Hli1 & Hch1 & Hfs1).
+  (* port file *)
+  assert (P3 : listening w3 = listening w2 /\ children w3 = children w2 /\
+               match port_file c with
+               | Some f => fs w3 = fs_set f (Regular (port_lines (reported c'))) (fs w2) /\
+                           fs w2 f <> Some SocketFile
+               | None => fs w3 = fs w2 end).
+  { unfold write_port_file in Hpf. change (port_file c') with (port_file c) in Hpf.
+    change (unix_socket_path c') with (unix_socket_path c) in Hpf.
+    destruct (port_file c) as [f|].
+    - apply write_file_inv in Hpf as (Hf & ? & ? & Hns). repeat split; try assumption.
+      rewrite Hf. f_equal. f_equal. unfold reported.
+      change (unix_socket_path c') with (unix_socket_path c).
+      destruct (unix_socket_path c); [reflexivity|]. rewrite port_lines_cons. reflexivity.
+    - inversion Hpf; subst. auto. }
+  destruct P3 as (Hli3 & Hch3 & Hfs3).
+  cbn [flags listeners acceptors executors spawn set_children fs listening children].
+  split; [|split; [|split; [|split; [|split; [|split; [|split]]]]]].
+  - rewrite Hli3, Hli2, Hli1. reflexivity.
+  - rewrite Hch3, Hch2, Hch1, <- app_assoc. reflexivity.
+  - reflexivity.
+  - reflexivity.
+  - (* port file content *)
+    intros f Ef. rewrite Ef in Hfs3. destruct Hfs3 as (-> & _). apply fs_set_same.
+  - (* unix socket path *)
+    intros u Eu. rewrite Eu in Hm. destruct Hm as (_ & Hnone & Hfs2).
+    assert (Hpidne : pid_file c <> Some u).
+    { intros Ep. rewrite Ep in Hfs1. rewrite Hfs1, fs_set_same in Hnone. discriminate. }
+    assert (Hw : fs w u = None).
+    { destruct (pid_file c) as [f|]; [|now rewrite Hfs1 in Hnone].
+      rewrite Hfs1, fs_set_other in Hnone; [assumption|congruence]. }
+    assert (Hportne : port_file c <> Some u).
+    { intros Ep. rewrite Ep in Hfs3. destruct Hfs3 as (_ & Hns). apply Hns.
+      rewrite Hfs2. apply fs_set_same. }
+    repeat split; try assumption.
+    destruct (port_file c) as [f|].
+    + destruct Hfs3 as (-> & _). rewrite fs_set_other by congruence. rewrite Hfs2. apply fs_set_same.
+    + rewrite Hfs3, Hfs2. apply fs_set_same.
+  - (* pid file content *)
+    intros f Ep Hne. rewrite Ep in Hfs1.
+    assert (H3 : fs w3 f = fs w2 f).
+    { destruct (port_file c) as [g|]; [|now rewrite Hfs3].
+      destruct Hfs3 as (-> & _). apply fs_set_other. congruence. }
+    rewrite H3.
+    destruct (unix_socket_path c) as [u|].
+    + destruct Hm as (_ & Hnone & ->). rewrite Hfs1 in Hnone.
+      rewrite fs_set_other; [rewrite Hfs1; apply fs_set_same|].
+      intros ->. rewrite fs_set_same in Hnone. discriminate.
+    + destruct Hm as (_ & ->). rewrite Hfs1. apply fs_set_same.
+  - (* everything else untouched *)
+    intros f N1 N2 N3.
+    assert (H3 : fs w3 f = fs w2 f).
+    { destruct (port_file c) as [g|]; [|now rewrite Hfs3].
+      destruct Hfs3 as (-> & _). apply fs_set_other. congruence. }
+    assert (H2 : fs w2 f = fs w1 f).
+    { destruct (unix_socket_path c) as [u|].
+      - destruct Hm as (_ & _ & ->). apply fs_set_other. congruence.
+      - destruct Hm as (_ & ->). reflexivity. }
+    assert (H1 : fs w1 f = fs w f).
+    { destruct (pid_file c) as [g|]; [|now rewrite Hfs1].
+      rewrite Hfs1. apply fs_set_other. congruence. }
+    congruence.
+Qed.
+
+
+(* ------------------------------------------------------------------ C19: reported ports *)
+Lemma flags_fixed_fields c w p w' : proxy_setup os c w = Ok (p, w') ->
+  unix_socket_path (flags p) = unix_socket_path c /\ port_file (flags p) = port_file c /\
+  pid_file (flags p) = pid_file c /\ remote_executors_enabled (flags p) = remote_executors_enabled c.
+Proof.
+  intros H. apply setup_shape in H as (h0 & hs & x & lsA & lsB & _ & _ & _ & _ & _ & _ & ->).
+  repeat split.
+Qed.
+
+Lemma reports_truthfully c w p w' : proxy_setup os c w = Ok (p, w') ->
+  let r := reported (flags p) in
+  NoDup r /\
+  (forall q, In q r -> exists h p0, In (TcpL h p0 q) (listeners p)) /\
+  (single_or_fixed c -> forall h p0 q, In (TcpL h p0 q) (listeners p) -> In q r) /\
+  (unix_socket_path c = None -> exists h0, In h0 (hostname c :: hostnames c) /\
+      nth_error (listeners p) 0 = Some (TcpL h0 (port c) (port (flags p)))) /\
+  (forall f, port_file c = Some f -> fs w' f = Some (Regular (port_lines r))).
+Proof.
+  intros H r.
+  pose proof (setup_world _ _ _ _ H) as (_ & _ & _ & _ & Hpf & _).
+  pose proof (flags_fixed_fields _ _ _ _ H) as (Eu & _).
+  apply setup_shape in H as (h0 & hs & x & lsA & lsB & Eh & EL & FA & FB & Hx & Hps & _).
+  assert (K1 : forall q, In q (ports (flags p)) <->
+               In q (map l_port lsA) /\ (unix_socket_path c = None -> q <> port (flags p))).
+  { intros q. rewrite Hps. rewrite (proj2 (Hports _) q). apply raw_after_In. }
+  assert (K2 : NoDup (ports (flags p))).
+  { rewrite Hps. apply (Hports _). }
+  assert (HA : forall l, In l lsA -> In (l_port l) r).
+  { intros l Hl. subst r. unfold reported. rewrite Eu.
+    destruct (unix_socket_path c) as [u|] eqn:Euc.
+    - apply K1. split; [now apply in_map|discriminate].
+    - destruct (N.eq_dec (l_port l) (port (flags p))) as [E|E]; [left; now symmetry|].
+      right. apply K1. split; [now apply in_map|]. intros _. exact E. }
+  assert (HtA : forall l, In l lsA -> exists h p0, l = TcpL h p0 (l_port l)).
+  { intros l Hl. destruct (Forall2_In_r _ _ _ _ FA Hl) as (a & _ & q & -> & _). eauto. }
+  split; [|split; [|split; [|split]]].
+  - (* no duplicates *)
+    subst r. unfold reported. rewrite Eu. destruct (unix_socket_path c) as [u|] eqn:Euc; [exact K2|].
+    constructor; [|exact K2]. intros Hin. apply K1 in Hin as (_ & Hne). now apply Hne.
+  - (* every reported port is bound *)
+    intros q Hq. subst r. unfold reported in Hq. rewrite Eu in Hq. rewrite EL.
+    assert (Hin : In q (ports (flags p)) -> exists h p0, In (TcpL h p0 q) (x :: lsA ++ lsB)).
+    { intros Hin. apply K1 in Hin as (Hm & _). apply in_map_iff in Hm as (l & <- & Hl).
+      destruct (HtA l Hl) as (h & p0 & E). exists h, p0. rewrite <- E.
+      right. apply in_or_app. now left. }
+    destruct (unix_socket_path c) as [u|] eqn:Euc; [now apply Hin|].
+    destruct Hq as [<-|Hq]; [|now apply Hin].
+    destruct Hx as ((qx & -> & _) & ->). cbn [fst snd l_port]. exists h0, (port c). now left.
+  - (* every bound port is reported *)
+    intros Hsf h p0 q Hin. rewrite EL in Hin.
+    assert (Hhead : unix_socket_path c = None -> In (port (flags p)) r).
+    { intros Euc. subst r. unfold reported. rewrite Eu, Euc. now left. }
+    destruct Hin as [Ex|Hin].
+    + destruct (unix_socket_path c) as [u|] eqn:Euc.
+      * destruct Hx as (-> & _). discriminate.
+      * destruct Hx as (_ & Hp). rewrite Ex in Hp. cbn [l_port] in Hp. rewrite <- Hp. now apply Hhead.
+    + apply in_app_or in Hin as [Hin|Hin]; [exact (HA _ Hin)|].
+      destruct (Forall2_In_r _ _ _ _ FB Hin) as ([a b] & Hab & qb & E & Hfix & _).
+      cbn [fst snd] in *. inversion E; subst a b qb; clear E.
+      apply in_prod_iff in Hab as (Hh & Hp0).
+      destruct Hsf as [Hsingle|Hnz].
+      * (* a single address: there is no further address block *)
+        exfalso.
+        destruct (Hhosts (hostname c :: hostnames c)) as (Hnd & Hiff). rewrite Eh in Hnd, Hiff.
+        assert (Hall : forall a, In a (h0 :: hs) -> a = hostname c).
+        { intros a Ha. apply Hiff in Ha as [<-|Ha]; [reflexivity|now apply Hsingle]. }
+        inversion Hnd as [|? ? Hnot _]; subst. apply Hnot.
+        rewrite (Hall h0) by now left. rewrite <- (Hall h) by now right. exact Hh.
+      * (* fixed ports only *)
+        assert (Hp0nz : p0 <> 0) by (intros ->; contradiction).
+        specialize (Hfix Hp0nz). subst q.
+        assert (HinA : In p0 (ports c) -> In p0 r).
+        { intros Hp. assert (Hpair : In (h0, p0) (map (pair h0) (ports c))) by now apply in_map.
+          destruct (Forall2_In_l _ _ _ _ FA Hpair) as (l & Hl & ql & -> & Hfl & _).
+          cbn [fst snd] in Hfl. specialize (Hfl Hp0nz). subst ql.
+          exact (HA _ Hl). }
+        unfold tcp_ports in Hp0. destruct (unix_socket_path c) as [u|] eqn:Euc; [now apply HinA|].
+        destruct Hp0 as [<-|Hp0]; [|now apply HinA].
+        destruct Hx as ((qx & -> & Hfx & _) & Hp). cbn [fst snd l_port] in *.
+        rewrite <- (Hfx Hp0nz), <- Hp. now apply Hhead.
+  - (* the primary port is the one of the first listener, created for --port *)
+    intros Euc. rewrite Euc in Hx. destruct Hx as ((qx & -> & _) & ->). cbn [fst snd l_port].
+    exists h0. split; [|rewrite EL; reflexivity].
+    apply (proj2 (Hhosts (hostname c :: hostnames c)) h0). rewrite Eh. now left.
+  - exact Hpf.
+Qed.
+
+(* ------------------------------------------------------------------ C19: every endpoint bound *)
+Lemma every_endpoint_bound c w p w' : proxy_setup os c w = Ok (p, w') ->
+  (forall h r, In h (hostname c :: hostnames c) -> In r (tcp_ports c) ->
+     exists q, In (TcpL h r q) (listeners p) /\ (r <> 0 -> q = r) /\ q <> 0) /\
+  (forall u, unix_socket_path c = Some u -> In (UnixL u) (listeners p) /\ fs w' u = Some SocketFile) /\
+  (forall h r q, In (TcpL h r q) (listeners p) -> In h (hostname c :: hostnames c) /\ In r (tcp_ports c)) /\
+  (forall u, In (UnixL u) (listeners p) -> unix_socket_path c = Some u) /\
+  length (listeners p) =
+    ((match unix_socket_path c with Some _ => 1 | None => 0 end) +
+     length (set_hosts os (hostname c :: hostnames c)) * length (tcp_ports c))%nat /\
+  listening w' = listening w ++ listeners p.
+Proof.
+  intros H.
+  pose proof (setup_world _ _ _ _ H) as (Hli & _ & _ & _ & _ & Hux & _).
+  apply proxy_setup_steps in H as (w1 & pool & w2 & port' & raw & w3 & _ & Hpool & _ & _ & _ & -> & _).
+  cbn [listeners] in *.
+  apply pool_setup_inv in Hpool as (ls & F & _ & _ & Hm).
+  assert (Hsub : forall l, In l ls -> In l pool).
+  { intros l Hl. destruct (unix_socket_path c); destruct Hm as (-> & _); [now right|assumption]. }
+  assert (Hls : forall h r q, In (TcpL h r q) ls -> In h (hostname c :: hostnames c) /\ In r (tcp_ports c)).
+  { intros h r q Hin. destruct (Forall2_In_r _ _ _ _ F Hin) as ([a b] & Hab & qb & E & _).
+    cbn [fst snd] in E. inversion E; subst a b qb.
+    apply in_prod_iff in Hab as (Hh & Hr). split; [|assumption].
+    now apply (proj2 (Hhosts (hostname c :: hostnames c)) h). }
+  assert (Hnu : forall u, ~ In (UnixL u) ls).
+  { intros u Hin. destruct (Forall2_In_r _ _ _ _ F Hin) as (a & _ & q & E & _). discriminate. }
+  split; [|split; [|split; [|split; [|split]]]].
+  - intros h r Hh Hr.
+    assert (Hpair : In (h, r) (product (set_hosts os (hostname c :: hostnames c)) (tcp_ports c))).
+    { apply in_prod; [|assumption]. now apply (proj2 (Hhosts (hostname c :: hostnames c)) h). }
+    destruct (Forall2_In_l _ _ _ _ F Hpair) as (l & Hl & q & -> & Hfix & Hnz). cbn [fst snd] in *.
+    exists q. split; [now apply Hsub|split; assumption].
+  - intros u Eu. split; [|now apply Hux]. rewrite Eu in Hm. destruct Hm as (-> & _). now left.
+  - intros h r q Hin. apply (Hls h r q).
+    destruct (unix_socket_path c); destruct Hm as (-> & _); [|assumption].
+    destruct Hin as [E|Hin]; [discriminate|assumption].
+  - intros u Hin. destruct (unix_socket_path c) as [u0|]; destruct Hm as (-> & _).
+    + destruct Hin as [E|Hin]; [now inversion E|]. now apply Hnu in Hin.
+    + now apply Hnu in Hin.
+  - apply Forall2_len in F. unfold product in F. rewrite prod_length in F.
+    destruct (unix_socket_path c); destruct Hm as (-> & _); cbn [length]; lia.
+  - exact Hli.
+Qed.
+
+(* ------------------------------------------------------------------ C19: shutdown *)
+Lemma tcp_shutdown ls : forall w rest,
+  (forall l, In l ls -> is_tcp l = true) -> listening w = ls ++ rest ->
+  exists w', pool_shutdown ls w = Ok w' /\ listening w' = rest /\ fs w' = fs w /\ children w' = children w.
+Proof.
+  induction ls as [|l t IH]; intros w rest Ht Hli.
+  - exists w. repeat split. assumption.
+  - cbn [pool_shutdown]. unfold listener_shutdown.
+    assert (Hl : is_tcp l = true) by (apply Ht; now left).
+    destruct l as [h p0 q|u]; [|discriminate]. cbn [bind].
+    rewrite Hli. cbn [app remove_one]. rewrite listener_eqb_refl.
+    destruct (IH (set_listening (t ++ rest) w) rest) as (w' & E & ? & ? & ?);
+      [intros l Hl'; apply Ht; now right|reflexivity|].
+    exists w'. repeat split; assumption.
+Qed.
+
+Lemma delete_fs o w g :
+  fs (delete_file_if_exists o w) g =
+    match o with Some f => if bytes_eqb g f then None else fs w g | None => fs w g end /\
+  listening (delete_file_if_exists o w) = listening w /\
+  children (delete_file_if_exists o w) = children w.
+Proof.
+  unfold delete_file_if_exists. destruct o as [f|]; [|repeat split].
+  unfold path_exists. destruct (fs w f) as [k|] eqn:E; cbn [set_fs fs listening children];
+    (split; [|split; reflexivity]).
+  - reflexivity.
+  - destruct (bytes_eqb g f) eqn:Eg; [|reflexivity]. apply bytes_eqb_eq in Eg. now subst.
+Qed.
+
+Lemma filter_joined (ps l : list child) : (forall x, In x l -> In x ps) ->
+  filter (fun x => negb (mem child_eqb x ps)) l = [].
+Proof.
+  induction l as [|a l IH]; intros Hin; [reflexivity|]. cbn [filter].
+  rewrite (proj2 (mem_In child_eqb child_eqb_eq a ps)) by (apply Hin; now left). cbn [negb].
+  apply IH. intros x Hx. apply Hin. now right.
+Qed.
+
+Lemma shutdown_clears c w p w' : proxy_setup os c w = Ok (p, w') ->
+  listening w = [] -> children w = [] ->
+  exists w2, proxy_shutdown p w' = Ok w2 /\ listening w2 = [] /\ children w2 = [] /\
+    (forall f, pid_file c = Some f \/ port_file c = Some f \/ unix_socket_path c = Some f ->
+       fs w2 f = None) /\
+    (forall f, pid_file c <> Some f -> port_file c <> Some f -> unix_socket_path c <> Some f ->
+       fs w2 f = fs w f).
+Proof.
+  intros H Hl0 Hc0.
+  pose proof (setup_world _ _ _ _ H) as (Hli & Hch & Hac & Hex & _ & Hux & _ & Hother).
+  pose proof (flags_fixed_fields _ _ _ _ H) as (_ & Epf & Epid & Erem).
+  rewrite Hl0 in Hli. rewrite Hc0 in Hch. cbn [app] in Hli, Hch.
+  unfold proxy_shutdown. rewrite Erem.
+  (* children *)
+  set (wj := if remote_executors_enabled c then join_all (executors p) (join_all (acceptors p) w')
+             else join_all (acceptors p) w').
+  assert (Hj : fs wj = fs w' /\ listening wj = listening w' /\ children wj = []).
+  { subst wj. destruct (remote_executors_enabled c);
+      cbn [join_all set_children fs listening children]; (split; [reflexivity|split; [reflexivity|]]).
+    - apply filter_joined. intros x Hx. apply filter_In in Hx as (Hx & Hnm).
+      rewrite Hch in Hx. apply in_app_or in Hx as [Hx|Hx]; [assumption|].
+      apply (mem_In child_eqb child_eqb_eq) in Hx. rewrite Hx in Hnm. discriminate.
+    - rewrite Hch, Hex. cbn [app]. apply filter_joined. auto. }
+  destruct Hj as (Hjf & Hjl & Hjc). fold wj. clearbody wj.
+  (* listeners *)
+  apply proxy_setup_steps in H as (w1 & pool & w2 & port' & raw & w3 & _ & Hpool & _ & _ & _ & Ep & _).
+  assert (ELp : listeners p = pool) by (rewrite Ep; reflexivity).
+  rewrite ELp in *.
+  apply pool_setup_inv in Hpool as (ls & F & _ & _ & Hm).
+  assert (Htl : forall l, In l ls -> is_tcp l = true).
+  { intros l Hl. destruct (Forall2_In_r _ _ _ _ F Hl) as (a & _ & Ha). exact (bound_as_tcp _ _ Ha). }
+  assert (Hps : exists w3', pool_shutdown pool wj = Ok w3' /\ listening w3' = [] /\ children w3' = [] /\
+            forall g, fs w3' g = if match unix_socket_path c with Some u => bytes_eqb g u | None => false end
+                                 then None else fs w' g).
+  { destruct (unix_socket_path c) as [u|] eqn:Eu.
+    - destruct Hm as (-> & _). destruct (Hux u eq_refl) as (Hsock & _).
+      cbn [pool_shutdown]. unfold listener_shutdown, os_remove.
+      cbn [set_listening fs listening children]. rewrite Hjl, Hli. cbn [remove_one].
+      rewrite listener_eqb_refl, Hjf, Hsock. cbn [bind].
+      match goal with |- context [pool_shutdown ls ?w0] =>
+        destruct (tcp_shutdown ls w0 [] Htl) as (w3' & E3 & L3 & F3 & C3) end.
+      { cbn [set_fs set_listening listening]. now rewrite app_nil_r. }
+      exists w3'. split; [exact E3|]. split; [exact L3|]. split.
+      + rewrite C3. cbn [set_fs set_listening children]. exact Hjc.
+      + intros g. rewrite F3. cbn [set_fs set_listening fs]. unfold fs_del. reflexivity.
+    - destruct Hm as (-> & _).
+      destruct (tcp_shutdown ls wj [] Htl) as (w3' & E3 & L3 & F3 & C3).
+      { rewrite Hjl, Hli. now rewrite app_nil_r. }
+      exists w3'. split; [exact E3|]. split; [exact L3|]. split; [now rewrite C3|].
+      intros g. now rewrite F3, Hjf. }
+  destruct Hps as (w3' & E3 & L3 & C3 & F3). rewrite E3. cbn [bind].
+  eexists. split; [reflexivity|].
+  unfold delete_pid_file, delete_port_file. rewrite Epf, Epid.
+  destruct (delete_fs (port_file c) w3' []) as (_ & La & Ca).
+  destruct (delete_fs (pid_file c) (delete_file_if_exists (port_file c) w3') []) as (_ & Lb & Cb).
+  split; [now rewrite Lb, La|]. split; [now rewrite Cb, Ca|].
+  assert (Hfinal : forall g, fs (delete_file_if_exists (pid_file c) (delete_file_if_exists (port_file c) w3')) g =
+            match pid_file c with Some f => if bytes_eqb g f then None else fs (delete_file_if_exists (port_file c) w3') g | None => fs (delete_file_if_exists (port_file c) w3') g end)
+    by (intros g; apply (delete_fs (pid_file c) (delete_file_if_exists (port_file c) w3') g)).
+  assert (Hmid : forall g, fs (delete_file_if_exists (port_file c) w3') g =
+            match port_file c with Some f => if bytes_eqb g f then None else fs w3' g | None => fs w3' g end)
+    by (intros g; apply (delete_fs (port_file c) w3' g)).
+  split.
+  - intros f Hf. rewrite Hfinal, Hmid, F3.
+    destruct (pid_file c) as [f1|]; [destruct (bytes_eqb f f1) eqn:B1; [reflexivity|]|];
+      (destruct (port_file c) as [f2|]; [destruct (bytes_eqb f f2) eqn:B2; [reflexivity|]|]);
+      (destruct (unix_socket_path c) as [u|]; [destruct (bytes_eqb f u) eqn:B3; [reflexivity|]|]).
+    all: exfalso.
+    all: repeat match goal with
+         | Hb : bytes_eqb ?a ?b = false |- _ =>
+             assert (a <> b) by (intros ->; rewrite bytes_eqb_refl in Hb; discriminate); clear Hb
+         end.
+    all: intuition congruence.
+  - intros f N1 N2 N3. rewrite Hfinal, Hmid, F3, <- (Hother f N1 N2 N3).
+    assert (B : forall g, Some g <> Some f -> bytes_eqb f g = false).
+    { intros g Hg. destruct (bytes_eqb f g) eqn:B; [|reflexivity]. apply bytes_eqb_eq in B. congruence. }
+    destruct (pid_file c) as [f1|]; [rewrite (B f1 N1)|];
+      (destruct (port_file c) as [f2|]; [rewrite (B f2 N2)|]);
+      (destruct (unix_socket_path c) as [u|]; [rewrite (B u N3)|]); reflexivity.
+Qed.
+
 End Facts.
+
+(* ------------------------------------------------------------------ a concrete oracle (non-vacuity) *)
+Definition addr_eq_dec (a b : addr) : {a = b} + {a <> b}.
+Proof. decide equality; apply N.eq_dec. Defined.
+
+(* binds succeed; port 0 yields 40000 + (number of earlier binds); sets iterate in first-occurrence order *)
+Definition ex_os : os_oracle :=
+  {| sock_bind := fun k _ p => Ok (if p =? 0 then 40000 + N.of_nat k else p);
+     set_hosts := nodup addr_eq_dec;
+     set_ports := nodup N.eq_dec;
+     getpid := 4242 |}.
+
+Lemma ex_os_spec : os_spec ex_os.
+Proof.
+  split; [|split].
+  - intros k h p q H. cbn [sock_bind ex_os] in H. inversion H; subst; clear H.
+    destruct (p =? 0) eqn:E.
+    + apply N.eqb_eq in E. subst. split; [intros C; exfalso; now apply C|].
+      intros C. destruct (N.of_nat k); discriminate.
+    + apply N.eqb_neq in E. split; [reflexivity|exact E].
+  - intros l. split; [apply NoDup_nodup|intros x; apply nodup_In].
+  - intros l. split; [apply NoDup_nodup|intros x; apply nodup_In].
+Qed.
